@@ -83,6 +83,7 @@ func c10ServerCase(e *c10Env, cw *c10World, pos c10Pos, plain bool, m c10Mutant)
 	input := fmt.Sprintf("%s %s request %d #%d layer=%s mutation=%s body=%s", cw.name, pos.proto, pos.reqType, pos.occ, layer, m.what, c10Trunc(m.body))
 	e.x.r.Case(c10Key("srv", cw.name, pos.reqType, pos.occ, plain, m.body), true, m.class)
 	e.x.r.Distribution["position:"+name]++
+	e.notePos(name, rt.srvAlloc, len(rt.wire))
 	if rt.srvAlloc > e.maxSrvAlloc {
 		e.maxSrvAlloc, e.maxSrvWhat = rt.srvAlloc, fmt.Sprintf("%s %s %s (%d bytes)", cw.name, name, m.what, len(rt.wire))
 	}
